@@ -11,7 +11,7 @@ BUDGET_S = {'quick': 170, 'thorough': 1500}
 CASE_TIMEOUT_S = 900
 STUBS = ['cli.common.signal -> FakeSignal/VirtualAlarm (handler called at the k-th line event of an attempt)',
          'pathos ParallelPool -> SimPool']
-PROBES = ['alarm_fired', 'retry_depth_ge_2', 'ladder_exhausted', 'timeout_swallowed_by_skip_failed',
+PROBES = ['corpus_case', 'step_cap_discarded', 'alarm_fired', 'retry_depth_ge_2', 'ladder_exhausted', 'timeout_swallowed_by_skip_failed',
           'peptides_lost_legitimately', 'threads_gt_1', 'fired_in_stage:create_variant_graph',
           'fired_in_stage:fit_into_codons', 'fired_in_stage:translate', 'fired_in_stage:create_cleavage_graph',
           'fired_in_stage:call_variant_peptides', 'fired_in_circ_or_fusion_unit', 'fired_near_attempt_end']
@@ -42,8 +42,11 @@ def gen(seed, idx):
     cfg['additional_variants_per_misc'] = rng.choice(LADDERS_AV)
     cfg['skip_failed'] = rng.random() < 0.4
     cfg['timeout_seconds'] = rng.choice([1800, 60, 600])
-    case = cvcase.gen_case(rng, n_genes=rng.randint(3, 6), n_records=rng.randint(8, 20),
-                           cluster=rng.random() < 0.65, config=cfg)
+    if rng.random() < 0.2:
+        case = cvcase.gen_corpus_case(rng, config=cfg)
+    else:
+        case = cvcase.gen_case(rng, n_genes=rng.randint(3, 6), n_records=rng.randint(8, 20),
+                               cluster=rng.random() < 0.65, config=cfg)
     return case, rng
 
 
@@ -181,6 +184,8 @@ def run_case(seed, task, tier):
             out['invalid_reason'] = m.exc or 'no attempts'
             return out
         out['steps'] += sum(n for _, n in m.attempt_lines)
+        if case['stats'].get('corpus'):
+            probes['corpus_case'] = 1
         # do the limits bind on this input?
         ladder = len(case['config']['max_variants_per_node'])
         last_plan = None
